@@ -315,6 +315,12 @@ func (w *PollWorker) Process(mesg *aio.Message) {
 		return
 	}
 
+	// a receiver whose data is json null decodes into a nil pointer
+	if data == nil {
+		mesg.Done(false, fmt.Errorf("invalid receiver data %s", mesg.Data))
+		return
+	}
+
 	// check if we have a connection
 	conn, ok := w.connections.get(data.Group, data.Id)
 	if !ok {
